@@ -238,6 +238,11 @@ func Main(t *testing.T, spec Spec) {
 	keepAll := os.Getenv("VERIF_KEEP_TRACE") != ""
 	stop := false
 	handle := func(r RunResult, run int) {
+		if r.Violation != nil && strings.HasSuffix(r.Violation.Invariant, ".harness") {
+			// trouble of the harness itself (set-up that did not work): infrastructure error, never a violation
+			r.Panic = "harness error: " + r.Violation.Site + ": " + r.Violation.Message
+			r.Violation = nil
+		}
 		if r.Violation == nil && !keepAll {
 			r.Decisions = nil
 		}
